@@ -11,7 +11,7 @@ use std::time::Duration;
 use vcore::{prop_search, Outcome, Run, Search};
 use wire::*;
 
-const RULE: &str = "end-to-end: histories of 1..5 connection-level events sent by the raw peer on either role — answer of the raw server to the client's CONNECT in {HEADERS, GREASE / unknown frame then HEADERS, DATA first, SETTINGS first, WT signal first, any frame truncated by FIN}; control stream opened with {valid SETTINGS, DATA first, HEADERS first, GREASE first, reserved setting id, duplicated setting id}; then {duplicate control stream, QPACK encoder/decoder stream (+ duplicate), unknown / GREASE uni stream, FIN or RESET of a critical stream, STOP_SENDING on the endpoint's own control stream, a frame of any type (DATA, HEADERS, SETTINGS, GREASE, unknown, WT signal) cut short by FIN inside its type, inside its length, right after its length or inside its payload on the control stream / as first frame of a new bidi stream / on the session stream, uni stream finished or reset inside its type varint, DATA / HEADERS / second SETTINGS / oversize / GREASE frame on the control stream, request whose first frame is DATA or SETTINGS, GET request, CONNECT without :protocol, WT streams with valid and invalid session ids, GREASE then WT signal on a bidi stream, SETTINGS / HEADERS / WT signal / GREASE on the established session stream}. Reference model (RFC 9114 §4.1, §6.2, §6.2.1, §7.2.x, RFC 9204 §4.2, WT draft): each event maps to continue / refuse that stream (code) / close the connection (admissible code set). Oracle: the first closing event decides the CONNECTION_CLOSE code seen by the raw peer and the local API error; histories without a closing event leave the session usable (fresh stream echo), and refused requests carry the prescribed STOP_SENDING code. Non-trivial: the history contains an event whose prescribed reaction is not 'continue'; distinct = distinct history";
+const RULE: &str = "end-to-end: histories of 1..5 connection-level events sent by the raw peer on either role — answer of the raw server to the client's CONNECT in {HEADERS, GREASE / unknown frame then HEADERS, DATA first, SETTINGS first, WT signal first, any frame truncated by FIN}; control stream opened with {valid SETTINGS, DATA first, HEADERS first, GREASE first, reserved setting id, duplicated setting id}; then {duplicate control stream, QPACK encoder/decoder stream (+ duplicate), unknown / GREASE uni stream, FIN or RESET of a critical stream (control, QPACK encoder, QPACK decoder), STOP_SENDING on the endpoint's own control stream, a frame of any type (DATA, HEADERS, SETTINGS, GREASE, unknown, WT signal) cut short by FIN inside its type, inside its length, right after its length or inside its payload on the control stream / as first frame of a new bidi stream / on the session stream, uni stream finished or reset inside its type varint, DATA / HEADERS / second SETTINGS / oversize / GREASE frame on the control stream, request whose first frame is DATA or SETTINGS, GET request, CONNECT without :protocol, WT streams with valid and invalid session ids, GREASE then WT signal on a bidi stream, SETTINGS / HEADERS / WT signal / GREASE on the established session stream}. Reference model (RFC 9114 §4.1, §6.2, §6.2.1, §7.2.x, RFC 9204 §4.2, WT draft): each event maps to continue / refuse that stream (code) / close the connection (admissible code set). Oracle: the first closing event decides the CONNECTION_CLOSE code seen by the raw peer and the local API error; histories without a closing event leave the session usable (fresh stream echo), and refused requests carry the prescribed STOP_SENDING code. Non-trivial: the history contains an event whose prescribed reaction is not 'continue'; distinct = distinct history";
 
 #[derive(Clone, Debug, Serialize, Deserialize, PartialEq)]
 pub enum Ev {
@@ -24,6 +24,9 @@ pub enum Ev {
     /// STOP_SENDING on the endpoint's own control stream
     StopLocalControl,
     FinQpackEnc,
+    ResetQpackEnc,
+    FinQpackDec,
+    ResetQpackDec,
     UniFinInsideType,
     UniResetInsideType,
     UniFinBeforeAnyByte,
@@ -125,7 +128,14 @@ impl Model {
             }
             Ev::UnknownUni(_) => Continue,
             Ev::FinControl | Ev::ResetControl | Ev::StopLocalControl => Close(vec![reg::H3_CLOSED_CRITICAL_STREAM]),
-            Ev::FinQpackEnc => {
+            Ev::FinQpackDec | Ev::ResetQpackDec => {
+                if self.qdec {
+                    Close(vec![reg::H3_CLOSED_CRITICAL_STREAM])
+                } else {
+                    Continue
+                }
+            }
+            Ev::FinQpackEnc | Ev::ResetQpackEnc => {
                 if self.qenc {
                     Close(vec![reg::H3_CLOSED_CRITICAL_STREAM])
                 } else {
@@ -215,6 +225,9 @@ fn ev_strategy() -> impl Strategy<Value = Ev> {
         Just(Ev::ResetControl),
         Just(Ev::StopLocalControl),
         Just(Ev::FinQpackEnc),
+        Just(Ev::ResetQpackEnc),
+        Just(Ev::FinQpackDec),
+        Just(Ev::ResetQpackDec),
         Just(Ev::UniFinInsideType),
         Just(Ev::UniResetInsideType),
         Just(Ev::UniFinBeforeAnyByte),
@@ -343,6 +356,7 @@ struct Peer {
     control: quinn::SendStream,
     req_send: Option<quinn::SendStream>,
     qenc: Option<quinn::SendStream>,
+    qdec: Option<quinn::SendStream>,
     session: u64,
     held: Vec<Box<dyn std::any::Any + Send>>,
     local_control: Option<quinn::RecvStream>,
@@ -365,6 +379,8 @@ impl Peer {
                     let _ = s.write_all(&refcodec::enc_varint(ty)).await;
                     if *ev == Ev::QpackEnc && self.qenc.is_none() {
                         self.qenc = Some(s);
+                    } else if *ev == Ev::QpackDec && self.qdec.is_none() {
+                        self.qdec = Some(s);
                     } else {
                         self.held.push(Box::new(s));
                     }
@@ -409,6 +425,21 @@ impl Peer {
             Ev::FinQpackEnc => {
                 if let Some(s) = self.qenc.as_mut() {
                     let _ = s.finish();
+                }
+            }
+            Ev::ResetQpackEnc => {
+                if let Some(s) = self.qenc.as_mut() {
+                    let _ = s.reset(vi(1));
+                }
+            }
+            Ev::FinQpackDec => {
+                if let Some(s) = self.qdec.as_mut() {
+                    let _ = s.finish();
+                }
+            }
+            Ev::ResetQpackDec => {
+                if let Some(s) = self.qdec.as_mut() {
+                    let _ = s.reset(vi(1));
                 }
             }
             Ev::UniFinInsideType | Ev::UniResetInsideType | Ev::UniFinBeforeAnyByte => {
@@ -578,7 +609,7 @@ async fn exec_async(case: Arc<Case>) -> CaseResult {
                 establish_err = Some("timeout".into());
             }
         }
-        peer = Peer { conn, control, req_send: Some(rs), qenc: None, session: sid, held: vec![Box::new(rr)], local_control: None };
+        peer = Peer { conn, control, req_send: Some(rs), qenc: None, qdec: None, session: sid, held: vec![Box::new(rr)], local_control: None };
         _keep = Box::new((server_ep, ep));
     } else {
         let (raw_ep, addr) = match raw_server(&t) {
@@ -630,7 +661,7 @@ async fn exec_async(case: Arc<Case>) -> CaseResult {
                 establish_err = Some("timeout".into());
             }
         }
-        peer = Peer { conn, control, req_send: rs, qenc: None, session: sid, held: vec![Box::new(rr)], local_control: None };
+        peer = Peer { conn, control, req_send: rs, qenc: None, qdec: None, session: sid, held: vec![Box::new(rr)], local_control: None };
         _keep = Box::new((client_ep, raw_ep));
     }
     let mut labels: Vec<&'static str> = vec![if case.wt_is_server { "role:server" } else { "role:client" }];
@@ -798,6 +829,12 @@ pub fn run(run: &Run) {
         }
         for pre in [Pre::DataFirst, Pre::HeadersFirst, Pre::GreaseFirst, Pre::ReservedSetting(0), Pre::ReservedSetting(1), Pre::ReservedSetting(2), Pre::ReservedSetting(3), Pre::ReservedSetting(4), Pre::DuplicateSetting] {
             table.push(Case { flavor: 0, wt_is_server, pre, events: vec![Ev::ControlGrease], resp: Resp::Normal });
+        }
+    }
+    // the QPACK streams: duplicates and closures of each of them
+    for wt_is_server in [true, false] {
+        for (i, evs) in [vec![Ev::QpackDec, Ev::QpackDec], vec![Ev::QpackEnc, Ev::QpackEnc], vec![Ev::QpackEnc, Ev::FinQpackEnc], vec![Ev::QpackDec, Ev::FinQpackDec], vec![Ev::QpackDec, Ev::ResetQpackDec], vec![Ev::QpackEnc, Ev::ResetQpackEnc], vec![Ev::QpackEnc, Ev::QpackDec, Ev::FinQpackDec], vec![Ev::FinQpackDec, Ev::ResetQpackEnc, Ev::ControlGrease]].into_iter().enumerate() {
+            table.push(Case { flavor: (i % 3) as u8, wt_is_server, pre: Pre::Valid, events: evs, resp: Resp::Normal });
         }
     }
     // every answer the raw server can give to the client's CONNECT
